@@ -64,6 +64,9 @@ pub enum Op {
     Restart,
     NodeDown,
     NodeUp,
+    /// The node comes back, and goes away again when the `rpcs`-th RPC after that is issued (C12: an outage that hits
+    /// the retried call).
+    NodeUpThenDownAfter { rpcs: u32 },
     /// Arms a failure of the n-th block download of the next poll.
     FetchFault { nth: u32, persistent: bool },
     /// Environment thread only: yields until the node is down (or `max` scheduling points went by).
@@ -124,6 +127,7 @@ impl Op {
             Op::Restart => "restart",
             Op::NodeDown => "node_down",
             Op::NodeUp => "node_up",
+            Op::NodeUpThenDownAfter { .. } => "node_up_then_down",
             Op::FetchFault { .. } => "fetch_fault",
             Op::ForceVerdict { .. } => "force_verdict",
             Op::WaitNodeDown { .. } => "wait_node_down",
